@@ -22,6 +22,9 @@ def one(beh, n, seed):
     rng = random.Random(seed * 1000003 + n)
     name = "n%d" % n
     args = [lexh.concretize(v["t"], rng.random())[0] for v in beh["vals"]]
+    # an identifier is a value like any other, also one that is a keyword of CMake's own set() signature
+    args = [rng.choice(["CACHE", "PARENT_SCOPE", "FORCE"]) if v["form"] == "ident" and rng.random() < 0.3 else a
+            for v, a in zip(beh["vals"], args)]
     cmd = "%s(%s)" % (beh["kind"] if rng.random() < 0.7 else beh["kind"].upper(), " ".join([name] + args))
     doc = "#[[[\n# doc of %s\n#]]\n" % name if beh["doc"] else ""
     place = n % 3
@@ -104,3 +107,27 @@ def crlf_cases(run):
         elif want not in text:
             run.violation(case, want, [l for l in text.split("\n") if "Default value" in l or "Help text" in l][:2],
                           "a value that spans lines in a CRLF module is not stated as written")
+
+
+def twin_cases(run):
+    """Two commands of one file whose texts differ only in a blank (set(TW a b) / set(TW ab)): each entry states its own
+    command's values - nothing keyed by the text without blanks may be shared between them, nor between two files of
+    one process."""
+    import agg
+    from rstparse import Page
+    files = ["#[[[\n# first\n#]]\nset(TW a b)\n#[[[\n# second\n#]]\nset(TW ab)\n",
+             "#[[[\n# first\n#]]\noption(WITH_A B \"h\")\n#[[[\n# second\n#]]\noption(WITH_AB \"h\")\n",
+             "#[[[\n# other file\n#]]\nset(TW a b)\n", "#[[[\n# other file, one value\n#]]\nset(TW ab)\n"]
+    want = [[("TW", {"Default value": "a b", "type": "list"}), ("TW", {"Default value": "ab", "type": "str"})],
+            [("WITH_A", {"Help text": "B", "Default value": '"h"', "type": "bool"}), ("WITH_AB", {"Help text": '"h"', "Default value": "OFF", "type": "bool"})],
+            [("TW", {"Default value": "a b", "type": "list"})], [("TW", {"Default value": "ab", "type": "str"})]]
+    for src, exp in zip(files, want):
+        status, text, _, _ = agg.run_real(src, agg.make_settings())
+        run.count("twin-values:" + src)
+        case = {"source": src, "features": {"twin_commands": True}}
+        if status != "ok":
+            run.violation(case, "page", status + " " + text, "the pipeline raised")
+            continue
+        got = [(nd.arg, {k: v for k, v in nd.fields if k in ("Default value", "type", "Help text")}) for nd in Page(text).nodes if nd.name == "data"]
+        if got != exp:
+            run.violation(case, exp, got, "an entry does not state the values of its own command")
